@@ -16,6 +16,7 @@ import (
 	"errors"
 	"fmt"
 	"log/slog"
+	"regexp"
 	"strings"
 	"sync"
 	"time"
@@ -148,6 +149,28 @@ func mkRecord(level int, msg string, stack bool, attrs []slog.Attr) (slog.Record
 	return r, block
 }
 
+// stackFlag: 0 = plain record; 1 = a record built here that carries an errs stack; 2 = the record errs' own logging functions
+// build for an error (errs.LogAttrsWithLevel: message = the error's message, stack attribute first, then the attributes)
+func stackFlag(r *hx.Rand, allowed bool) string {
+	if !allowed || !r.Chance(1, 4) {
+		return "0"
+	}
+	if r.Bool() {
+		return "2"
+	}
+	return "1"
+}
+
+var stampRE = regexp.MustCompile(` \| \d{4}-\d\d-\d\d \| \d\d:\d\d:\d\d\.\d{3} \| `)
+
+// fixStamp replaces the header's time stamp (errs' logging functions use time.Now) by the fixed one
+func fixStamp(b []byte) []byte {
+	if loc := stampRE.FindIndex(b); loc != nil {
+		return append(append(append([]byte{}, b[:loc[0]]...), fixedTime.Round(0).Format(" | 2006-01-02 | 15:04:05.000 | ")...), b[loc[1]:]...)
+	}
+	return b
+}
+
 func maskStack(b []byte, block string) string {
 	s := string(b)
 	if block != "" && strings.HasSuffix(s, block) {
@@ -198,10 +221,28 @@ func runSeq(ops []string) string {
 				return "BADCASE"
 			}
 			p := &parser{s: f[5]}
-			r, block := mkRecord(hx.Atoi(f[2]), unhexDash(f[3]), f[4] == "1", p.attrs())
+			attrs := p.attrs()
+			r, block := mkRecord(hx.Atoi(f[2]), unhexDash(f[3]), f[4] == "1", attrs)
+			viaErrs := f[4] == "2"
 			e := "-"
 			if hs[h].Enabled(context.Background(), r.Level) {
-				e = hx.B2i(hs[h].Handle(context.Background(), r) != nil)
+				if viaErrs {
+					// errs' logging entry point creates the record (and swallows the handler's error)
+					er := errs.New(unhexDash(f[3]))
+					block = er.StackTrace(true) + "\n"
+					if len(attrs)%2 == 0 {
+						errs.LogAttrsWithLevel(context.Background(), r.Level, slog.New(hs[h]), er, attrs...)
+					} else { // the variadic-any entry point: Record.Add takes slog.Attr values as they are
+						args := make([]any, len(attrs))
+						for i, a := range attrs {
+							args[i] = a
+						}
+						errs.LogWithLevel(context.Background(), r.Level, slog.New(hs[h]), er, args...)
+					}
+					e = "?"
+				} else {
+					e = hx.B2i(hs[h].Handle(context.Background(), r) != nil)
+				}
 				if buffered {
 					deadline := time.Now().Add(200 * time.Millisecond)
 					for time.Now().Before(deadline) {
@@ -217,6 +258,9 @@ func runSeq(ops []string) string {
 			}
 			var ws []string
 			for _, w := range sk.take() {
+				if viaErrs {
+					w = fixStamp(w)
+				}
 				ws = append(ws, maskStack(w, block))
 			}
 			out = append(out, e+":"+strings.Join(ws, ","))
@@ -525,7 +569,7 @@ func gen(r *hx.Rand, n int) []string {
 				default:
 					h := r.Intn(nh)
 					ops = append(ops, fmt.Sprintf("log %d %d %s %s %s", h, []int{-8, -4, -1, 0, 2, 4, 8, 12, 100}[r.Intn(9)],
-						hexDash([]string{"", "hello", "two words", "a|b", "tab\there"}[r.Intn(5)]), hx.B2i(!grouped[h] && r.Chance(1, 5)), genAttrs(r, 3, r.Intn(5))))
+						hexDash([]string{"", "hello", "two words", "a|b", "tab\there"}[r.Intn(5)]), stackFlag(r, !grouped[h]), genAttrs(r, 3, r.Intn(5))))
 				}
 			}
 			out = append(out, strings.Join(ops, ";"))
